@@ -120,51 +120,119 @@ func spin(n int) {
 	}
 }
 
-// runOnce executes the program once with real goroutines behind a spinning
-// start barrier. Invocation and response stamps come from one atomic counter:
+// runReps executes the program reps times, each time on a fresh object, with one
+// real goroutine per program goroutine. The goroutines live for all repetitions
+// and meet at a (briefly spinning, then blocking) barrier before every repetition, so the repetitions
+// start aligned and cost microseconds (spawning goroutines per repetition costs
+// a thread wake-up each, which limits the number of schedules that can be
+// sampled). The drawn yields and spins then shift the operations against each
+// other.
+//
+// Invocation and response stamps come from one atomic counter per repetition:
 // the invocation stamp is taken before the call and the response stamp after it
 // returned, so "Ret(a) < Call(b)" implies that a really returned before b was
 // invoked (the recorded intervals contain the real ones; that only weakens the
 // real-time constraint, never strengthens it).
-func runOnce(p program, st *structure) []rec {
-	perG := st.fresh(p)
+func runReps(p program, st *structure, reps int) [][]rec {
 	n := len(p.G)
-	out := make([][]rec, n)
-	var clock atomic.Int64
-	var ready atomic.Int32
+	execs := make([][]func(i int, sp opSpec) (any, any), reps)
+	for r := range execs {
+		perG := st.fresh(p)
+		execs[r] = make([]func(i int, sp opSpec) (any, any), n)
+		for g := range execs[r] {
+			execs[r][g] = perG(g)
+		}
+	}
+	clocks := make([]atomic.Int64, reps)
+	out := make([][][]rec, reps)
+	for r := range out {
+		out[r] = make([][]rec, n)
+	}
+	var arrived atomic.Int64 // barrier: repetition r starts when (r+1)*n arrivals have been counted
+	gates := make([]chan struct{}, reps)
+	for r := range gates {
+		gates[r] = make(chan struct{})
+	}
 	var wg sync.WaitGroup
 	for g := range p.G {
 		wg.Add(1)
 		go func(g int) {
 			defer wg.Done()
-			do := perG(g)
 			ops := p.G[g]
-			recs := make([]rec, 0, len(ops))
-			ready.Add(1)
-			for ready.Load() < int32(n) {
-				runtime.Gosched()
-			}
-			for i, sp := range ops {
-				for y := 0; y < sp.Yield; y++ {
-					runtime.Gosched()
+			for r := 0; r < reps; r++ {
+				do := execs[r][g]
+				clock := &clocks[r]
+				recs := make([]rec, 0, len(ops))
+				// barrier: the last arriver opens the gate; the others spin briefly (on an idle
+				// machine everybody arrives within a microsecond and the repetition starts aligned)
+				// and then block, which hands the processor back when the machine is oversubscribed
+				target := int64(r+1) * int64(n)
+				if arrived.Add(1) == target {
+					close(gates[r])
+				} else {
+					open := false
+					for i := 0; i < 400 && !open; i++ {
+						open = arrived.Load() >= target
+					}
+					if !open {
+						<-gates[r]
+					}
 				}
-				spin(sp.Spin)
-				c := clock.Add(1)
-				in, o := do(i, sp)
-				r := clock.Add(1)
-				recs = append(recs, rec{G: g, I: i, In: in, Out: o, Call: c, Ret: r})
+				for i, sp := range ops {
+					for y := 0; y < sp.Yield; y++ {
+						runtime.Gosched()
+					}
+					spin(sp.Spin)
+					c := clock.Add(1)
+					in, o := do(i, sp)
+					t := clock.Add(1)
+					recs = append(recs, rec{G: g, I: i, In: in, Out: o, Call: c, Ret: t})
+				}
+				out[r][g] = recs
 			}
-			out[g] = recs
 		}(g)
 	}
 	wg.Wait()
-	var all []rec
-	for _, r := range out {
-		all = append(all, r...)
+	hist := make([][]rec, reps)
+	for r := range hist {
+		var all []rec
+		for _, recs := range out[r] {
+			all = append(all, recs...)
+		}
+		sort.Slice(all, func(i, j int) bool { return all[i].Call < all[j].Call })
+		st.finish(all)
+		hist[r] = all
 	}
-	sort.Slice(all, func(i, j int) bool { return all[i].Call < all[j].Call })
-	st.finish(all)
-	return all
+	return hist
+}
+
+// checkAll asks porcupine about every history (in parallel: the checks are
+// independent) and returns the index of the first non-linearizable one, or -1.
+func checkAll(st *structure, hist [][]rec) int {
+	workers := max(1, runtime.GOMAXPROCS(0)/vk.Shards())
+	bad := make([]bool, len(hist))
+	var next atomic.Int64
+	var wg sync.WaitGroup
+	for w := 0; w < workers; w++ {
+		wg.Add(1)
+		go func() {
+			defer wg.Done()
+			for {
+				i := int(next.Add(1)) - 1
+				if i >= len(hist) {
+					return
+				}
+				bad[i] = !linearizable(st, hist[i])
+			}
+		}()
+	}
+	wg.Wait()
+	for i, b := range bad {
+		if b {
+			return i
+		}
+	}
+	return -1
 }
 
 // overlapped reports whether two operations of different goroutines that touch
@@ -214,7 +282,7 @@ func replaying() bool {
 // final re-run meaningful, a program that once produced a non-linearizable
 // history fails again immediately with the recorded (real) history, and after
 // the first failure - and when replaying a fail file - every program is repeated
-// 30 times more often.
+// 10 times more often.
 func linProperty(t *testing.T, st *structure, quickN, thoroughN, reps int) {
 	sec := vk.Sec(t.Name())
 	var mu sync.Mutex
@@ -227,16 +295,16 @@ func linProperty(t *testing.T, st *structure, quickN, thoroughN, reps int) {
 		failure := sticky[enc]
 		n := reps
 		if boosted {
-			n *= 30
+			n *= 10
 		}
 		mu.Unlock()
 		nOverlap := 0
 		var sample []rec // a checked history of this program, preferably an overlapping one
-		for r := 0; r < n && failure == ""; r++ {
-			recs := runOnce(p, st)
-			if !linearizable(st, recs) {
+		if failure == "" {
+			hist := runReps(p, st, n)
+			if r := checkAll(st, hist); r >= 0 {
 				failure = fmt.Sprintf("C14 %s linearizability violated: no sequential witness for this history (repetition %d of %d)\nprogram: %s\nhistory ([invocation,response] stamps of one atomic counter):\n%s",
-					st.name, r+1, n, enc, historyString(st, recs))
+					st.name, r+1, n, enc, historyString(st, hist[r]))
 				mu.Lock()
 				if !boosted {
 					fmt.Println(failure) // first failure, before shrinking
@@ -244,13 +312,13 @@ func linProperty(t *testing.T, st *structure, quickN, thoroughN, reps int) {
 				sticky[enc] = failure
 				boosted = true
 				mu.Unlock()
-				break
 			}
-			if overlapped(recs) {
-				nOverlap++
-				sample = recs
-			} else if sample == nil {
-				sample = recs
+			sample = hist[0]
+			for _, recs := range hist {
+				if overlapped(recs) {
+					nOverlap++
+					sample = recs
+				}
 			}
 		}
 		if failure != "" {
@@ -272,4 +340,4 @@ func linProperty(t *testing.T, st *structure, quickN, thoroughN, reps int) {
 // Tier sizes of part (a): programs per structure and repetitions per program.
 func linPrograms() int         { return 2500 }
 func linProgramsThorough() int { return 160000 }
-func linReps() int             { return vk.Pick(12, 20) }
+func linReps() int             { return vk.Pick(100, 100) }
